@@ -235,12 +235,12 @@ func checkLenPre(c *Ctx, rule string, pkgs []string) int {
 	// entry points must need nothing
 	for p, k := range lp.need {
 		fn := p.Parent()
-		if fn.Signature.Recv() == nil || !invoked[fn.Name()] || fn.Synthetic != "" {
+		if fn.Signature.Recv() == nil || !invoked[NameOf(fn)] || fn.Synthetic != "" {
 			continue
 		}
 		n++
 		c.Fail(rule, ShortName(fn)+"("+p.Name()+")/any-length", c.Prog.FuncPos(fn),
-			fmt.Sprintf("%s is called through an interface with a slice of any length but relies on len(%s) >= %d without checking it (%s): a shorter input panics", fn.Name(), p.Name(), k, lp.where[p]))
+			fmt.Sprintf("%s is called through an interface with a slice of any length but relies on len(%s) >= %d without checking it (%s): a shorter input panics", NameOf(fn), p.Name(), k, lp.where[p]))
 	}
 	// call sites passing something else than the caller's own parameter
 	for _, fn := range fns {
@@ -262,14 +262,14 @@ func checkLenPre(c *Ctx, rule string, pkgs []string) int {
 					if _, propagated := lp.need[p]; propagated || minLenAt(cs.Block(), a) >= k || minLenAt(cs.Block(), p) >= k {
 						// guarded here, or the caller's own precondition (checked at its callers)
 						n++
-						ord[f.Name()]++
-						c.Pass(rule, fmt.Sprintf("%s/%s(arg%d)#%d", ShortName(fn), Origin(f).Name(), i, ord[f.Name()]), c.Prog.Pos(cs.Pos()), "")
+						ord[NameOf(f)]++
+						c.Pass(rule, fmt.Sprintf("%s/%s(arg%d)#%d", ShortName(fn), NameOf(Origin(f)), i, ord[NameOf(f)]), c.Prog.Pos(cs.Pos()), "")
 						continue
 					}
 				}
 				n++
-				ord[f.Name()]++
-				key := fmt.Sprintf("%s/%s(arg%d)#%d", ShortName(fn), Origin(f).Name(), i, ord[f.Name()])
+				ord[NameOf(f)]++
+				key := fmt.Sprintf("%s/%s(arg%d)#%d", ShortName(fn), NameOf(Origin(f)), i, ord[NameOf(f)])
 				got := knownMinLen(a, cs.Block(), map[ssa.Value]bool{})
 				c.Oblige(rule, key, c.Prog.Pos(cs.Pos()), got >= k,
 					fmt.Sprintf("%s relies on len >= %d (%s) but the argument is only known to have len >= %d here", ShortName(f), k, lp.where[f.Params[i]], got))
@@ -278,7 +278,7 @@ func checkLenPre(c *Ctx, rule string, pkgs []string) int {
 	}
 	// entry functions that satisfy themselves: record them as discharged
 	for _, fn := range fns {
-		if fn.Signature.Recv() == nil || !invoked[fn.Name()] || fn.Synthetic != "" {
+		if fn.Signature.Recv() == nil || !invoked[NameOf(fn)] || fn.Synthetic != "" {
 			continue
 		}
 		for _, p := range fn.Params {
